@@ -45,6 +45,7 @@ func RunRef(p *gen.Program, o Opts, skipErased bool) (ref.Result, *ref.Machine, 
 	}
 	m := ref.NewMachine(steps, work)
 	m.SkipErased = skipErased
+	m.SetUnknownFail(p.UnknownFail)
 	for _, d := range p.Dynamic {
 		var name string
 		var ar int
@@ -53,15 +54,20 @@ func RunRef(p *gen.Program, o Opts, skipErased bool) (ref.Result, *ref.Machine, 
 		fmt.Sscanf(d[i+1:], "%d", &ar)
 		m.Declare(name, ar)
 	}
-	if err := m.Consult(plainAll(p.Grouped())); err != nil {
+	if err := m.Consult(plainAll(p.Grouped(), p.Mode())); err != nil {
 		return ref.Result{Budget: true}, m, nil
 	}
-	return m.Solve(gen.Plain(p.Query, "chars"), p.Vars(), o.MaxAnswers), m, nil
+	return m.Solve(gen.Plain(p.Query, p.Mode()), p.Vars(), o.MaxAnswers), m, nil
 }
 
 // Load loads the program into a fresh real interpreter.
 func Load(p *gen.Program) (*sut.I, error) {
 	i := sut.New()
+	if ft := p.FlagText(); ft != "" {
+		if e := i.Exec(ft, 200_000); e != nil {
+			return i, fmt.Errorf("setting the flags failed: %s", e)
+		}
+	}
 	if !p.ViaAssert {
 		if e := i.Exec(p.Text(), 2_000_000); e != nil {
 			return i, fmt.Errorf("loading the program failed: %s", e)
@@ -89,10 +95,10 @@ func Load(p *gen.Program) (*sut.I, error) {
 }
 
 // plainAll replaces string literal nodes by the character lists they denote (the reference has one list representation).
-func plainAll(cs []*rt.Term) []*rt.Term {
+func plainAll(cs []*rt.Term, mode string) []*rt.Term {
 	out := make([]*rt.Term, len(cs))
 	for i, c := range cs {
-		out[i] = gen.Plain(c, "chars")
+		out[i] = gen.Plain(c, mode)
 	}
 	return out
 }
